@@ -6,6 +6,7 @@ import S3V.Thm.XmlRoundtrip
 import S3V.Thm.XmlStrict
 import S3V.Thm.XmlMeaning
 import S3V.Thm.XmlTokenEnc
+import S3V.Thm.XmlComment
 import S3V.Gen.XmlSer
 import S3V.Gen.XmlDe
 import S3V.Gen.XmlSmithy
@@ -484,6 +485,23 @@ theorem C13_accepted_documents_wellformed_document_element (X : Ext) (root : Byt
     obtain ⟨pre, a, body, post, mid, tail, h1, h2, h3, h4, h5, h6⟩ := decodeDoc_named_clean X hn
     exact ⟨pre, a, body, post, mid, tail, w, h1, h2, h3, h4, h5, h6, h.symm⟩
 
+/-- **The comments of an accepted document are well-formed** (XML 1.0 production [15]; the clause `comment` of
+well-formedness; FULL since the repair ce2599c: `Deserializer::new` switches quick-xml's `check_comments` on — until then
+`<!-- a -- b -->` and `<!-- a --->` were skipped like any comment: finding `xml-illformed-accepted:comment`, now fixed).
+For every document (any bytes):
+
+1. whenever the reader, standing behind a `<` of the input with any stack of open elements, hands out a comment event,
+   the input there is `!--` body `-->` followed by what it reads next, and the body is one production [15] allows
+   (`CommentBody`: no `--` inside, no `-` at its end — so the `-->` is the first `--` behind the opening); every other
+   text behind `<!-` is a reader error;
+2. a reader error anywhere in the token sequence ends with `InvalidXml` whatever the root and the schema: an accepted
+   document has none (`QEv.err ∉ q`) — so every comment of an accepted document went through (1). -/
+theorem C13_accepted_documents_wellformed_comment (X : Ext) :
+    (∀ (inp : Bytes) (stack stack' : List Bytes) (rest : Bytes), markup inp stack = some (.comment, rest, stack') →
+      ∃ c, inp = [33, 45, 45] ++ c ++ [45, 45, 62] ++ rest ∧ CommentBody c ∧ stack' = stack) ∧
+    (∀ (root : Bytes) (s : Sch) (q : List QEv) (v : Val), decodeDoc X (.named root) s (deEvents q) = .ok v → QEv.err ∉ q) :=
+  ⟨fun _ _ _ _ h => markup_comment h, fun _ _ _ _ h => decodeDoc_named_no_err X h⟩
+
 /-! ## meaning -/
 
 /-- **An accepted document is given its XML meaning** (FULL since the repairs c575458 and d365e05 of
@@ -614,5 +632,17 @@ example : (match decodeDoc { tsParse := fun _ _ => none } (.location [76]) .str
 example : (match decodeDoc { tsParse := fun _ _ => none } (.location [76]) .str
       (deEvents (tokenize [60, 76, 47, 62, 60, 76, 62, 69, 85, 60, 47, 76, 62])) with
     | .error e => e == .unexpectedStart | _ => false) = true := by decide
+
+/-- the hypotheses of `C13_accepted_documents_wellformed_comment` are inhabited: `<!-- - -->` (a single `-`) is a comment
+event, and `<Key><!-- c -->k</Key>` is accepted … -/
+example : markup [33, 45, 45, 32, 45, 32, 45, 45, 62, 120] [] = some (.comment, [120], []) := by decide
+example : (match decodeDoc { tsParse := fun _ _ => none } (.named t_Key) .str
+      (deEvents (tokenize [60, 75, 101, 121, 62, 60, 33, 45, 45, 32, 99, 32, 45, 45, 62, 107, 60, 47, 75, 101, 121, 62])) with
+    | .ok (.str b) => b == [107] | _ => false) = true := by decide
+
+/-- … `<!-- -- -->`, `<!-- --->` and `<!----->` are reader errors -/
+example : markup [33, 45, 45, 32, 45, 45, 32, 45, 45, 62] [] = none := by decide
+example : markup [33, 45, 45, 32, 45, 45, 45, 62] [] = none := by decide
+example : markup [33, 45, 45, 45, 45, 45, 62] [] = none := by decide
 
 end S3V.C13
